@@ -316,12 +316,17 @@ def r5(prog, rep):
     # psi limits come from psi_* options with psinorm_* as default
     mod = prog.module(tables.TOK)
     f = mod.funcs.get("TokamakEquilibrium.makeRegions")
-    src = mod.code(f.node)
+    from ..stores import effects
+    limits = {}
+    for e in effects(f.node, calls=True):
+        if e.kind == "store" and isinstance(e.target, ast.Attribute) and mod.code(e.target).startswith("self.psi_"):
+            limits.setdefault(mod.code(e.target), []).append(mod.code(e.value))
     n = 0
     for nm in ("core", "sol", "sol_inner", "pf_lower", "pf_upper"):
-        w = canon("self.psi_%s = with_default(self.user_options.psi_%s, self._psinorm_to_psi(self.user_options.psinorm_%s))" % (nm, nm, nm))
+        w = canon("with_default(self.user_options.psi_%s, self._psinorm_to_psi(self.user_options.psinorm_%s))" % (nm, nm))
         n += 1
-        rep.ob("R5", "psi_%s is the psi_* option, defaulting to the psinorm_* option converted to psi" % nm, w in src, f.site(), "", key="limits/" + nm)
+        got = limits.get("self.psi_" + nm, [])
+        rep.ob("R5", "psi_%s is the psi_* option, defaulting to the psinorm_* option converted to psi" % nm, got == [w], f.site(), "assigned: %s" % got, key="limits/" + nm)
     g2 = mod.funcs.get("TokamakEquilibrium._psinorm_to_psi")
     ctx = Context()
     ex = Extractor(ctx, mod)
